@@ -160,7 +160,20 @@ def check_C09(ctx, rep):
                 for v, sub in arms_:
                     want = "%s%s%d" % (pre, tys, 8 * v)
                     names = [n[1] for n in all_nodes(sub[1]) if tag(n) == "call"] if sub[0] == "leaf" else []
-                    ok &= any(nm.endswith("::" + want) for nm in names)
+                    named = any(nm.endswith("::" + want) for nm in names)
+                    if not named and len(arms_) == 1 and arms_[0][0] == 8:
+                        # not a call of the fixed-width route by name: the body may reach the same conversion through a private helper
+                        # (`from_word(n as i64)`).  Read semantically: with private plumbing inlined it is the tree of the fixed-width
+                        # route applied to the pointer-sized argument cast to that width (lossless for this target's width)
+                        fw = f.get("<TwoFloat as num_traits::%s>::%s" % (kind, want))
+                        try:
+                            if fw is not None:
+                                wide = vg.Exec(f, vg.Policy(f, "none")).cast("IntToInt", tys + "size", "%s%d" % (tys, 8 * v), P(0))
+                                t1 = H.norm_tree(H.tree_of(f, b, "op")); t2 = H.norm_tree(H.tree_of(f, fw, "op", args=[wide]))
+                                named = D.equivalent(t1, t2) is None
+                        except (vg.Unsupported, RuntimeError):
+                            named = False
+                    ok &= named
         n23 += 1
         rep.check(ok, "R23", "%s::%s%ssize" % (kind, pre, tys), "delegation:%s%ssize" % (pre, tys), "%s%ssize does not dispatch on size_of to the matching fixed-width route: %s" % (pre, tys, vg.show(tr)[:300]), where=H.where(b), nontrivial=False)
     b = f.get("<TwoFloat as num_traits::ToPrimitive>::to_f64")
